@@ -113,7 +113,16 @@ def call_impl_noerr(f, *a):
         return [2]
 
 def impl_str(arg):
-    return norm(str(mk_err(arg)))
+    e = mk_err(arg)
+    try:
+        r = str(e)
+        return [0, norm(r)] if isinstance(r, str) else [2]
+    except Exception:
+        return [2]
+
+def str_of(rec):
+    r = impl_str(rec)
+    return S(r[1]) if r[0] == 0 else '<str() raised>'
 
 def impl_context(arg):
     e = mk_err(arg)
@@ -328,9 +337,28 @@ FUNCS = {
     9: ("'{0}'.format(int)", impl_int, 'I'),
 }
 
+def _noout(g):
+    return g[:4]
+
 def canon(fn, out):
-    if fn == 3:
-        return canon_ctx(out)
+    """compare only what the property talks about: whether an error renders, which problems went
+    where and in which order, the mode cells, the exit status -- never the wording of a message
+    (the oracle checks, within the implementation, that renderings contain the message)"""
+    try:
+        if fn in (1, 2, 3):
+            return out[:1]
+        if fn == 4:
+            return [_noout(out[0]), out[1], out[2]]
+        if fn == 5:
+            return [[_noout(x[0])] + x[1:] for x in out]
+        if fn == 6:
+            return [_noout(out[0]), out[1]]
+        if fn == 7:
+            if out[0] == 0:
+                return out
+            return [1, out[1][2:], out[2], out[4][:1]]
+    except Exception:
+        pass
     return out
 
 # ------------------------------------------------------------------------------------------
@@ -356,11 +384,14 @@ def wellformed(rec):
         return st is not None and 0 <= st < pos <= len(text)
     return True
 
-def subseq_in_order(parts, text):
+def subseq_in_order(parts, text, word='warning'):
+    """every part occurs, in order, each preceded (since the previous one) by the word"""
     p = 0
     for s in parts:
         k = text.find(s, p)
         if k < 0:
+            return False
+        if word not in text[p:k].lower():
             return False
         p = k + len(s)
     return True
@@ -435,7 +466,7 @@ def oracle_hist(arg, out):
         return 'strict flag %r is not the one last set (%r): capture changed it' % (strict, cur_strict)
     if printed and code == 0:
         return 'a warning was printed but error_code stayed 0'
-    if printed and text.count('WARNING: ') < printed:
+    if printed and text.lower().count('warning') < printed:
         return '%d problems printed but fewer warnings on stderr' % printed
     return None
 
@@ -447,7 +478,7 @@ def oracle_modes(arg, out):
     code0, comp = arg
     ids, fatal, foreign = comp_parts(comp)
     end = [1, fatal] if fatal is not None else ([2] if foreign else [0])
-    strs = [S(impl_str(r)) for r in comp[0]]
+    strs = [str_of(r) for r in comp[0]]
     for k, name in ((0, 'strict'), (1, 'non-strict')):
         (g, oc, lst) = out[k]
         if lst != ids:
@@ -462,9 +493,9 @@ def oracle_modes(arg, out):
     text = S(g[4])
     if oc != end:
         return 'non-strict: body ended %r, run ended %r' % (end, oc)
-    if not subseq_in_order(['WARNING: ' + s for s in strs], text):
+    if not subseq_in_order(strs, text):
         return 'non-strict: the problems %r are not printed as warnings in order: %r' % (strs, text)
-    if text.count('WARNING: ') < len(ids):
+    if text.lower().count('warning') < len(ids):
         return 'non-strict: fewer warnings than problems'
     if ids and g[1] == 0:
         return 'non-strict: problems reported but error_code is 0'
@@ -479,19 +510,19 @@ def oracle_cmdline(arg, out):
     ids, fatal, foreign = comp_parts(comp)
     g, st = out
     text = S(g[4])
-    strs = [S(impl_str(r)) for r in comp[0]]
+    strs = [str_of(r) for r in comp[0]]
     if strict_opt:
         problem = ids[:1] or ([fatal] if fatal is not None else [])
         if ids or fatal is not None:
             if st[0] != 0 or st[1] == 0:
                 return '--strict: a problem but exit status %r' % (st,)
-            first = strs[0] if ids else S(impl_str(comp[1][1]))
-            if 'ERROR: ' + first not in text:
+            first = strs[0] if ids else str_of(comp[1][1])
+            if not subseq_in_order([first], text, 'error'):
                 return '--strict: the first problem is not printed as an error: %r' % text
         elif not foreign and st != [0, code0]:
             return 'no problem but exit status %r' % (st,)
         return None
-    if not subseq_in_order(['WARNING: ' + s for s in strs], text):
+    if not subseq_in_order(strs, text):
         return 'problems not printed as warnings in order: %r' % text
     if foreign:
         return None if st == [2] else 'foreign exception swallowed'
@@ -501,7 +532,7 @@ def oracle_cmdline(arg, out):
         return 'problems were reported but the exit status is 0'
     if not ids and fatal is None and st[1] != code0:
         return 'no problem but exit status changed to %r' % st[1]
-    if fatal is not None and 'ERROR: ' + S(impl_str(comp[1][1])) not in text:
+    if fatal is not None and not subseq_in_order(strs + [str_of(comp[1][1])], text, ''):
         return 'fatal error not printed: %r' % text
     return None
 
@@ -514,8 +545,13 @@ def oracle(fn, arg, out):
             return 'format_error raised instead of returning text'
         text = S(out[1])
         msg = S(rec[1])
-        if S(prefix) + S(impl_str(rec)) not in text or msg not in text:
+        if S(prefix) + str_of(rec) not in text or msg not in text:
             return 'the message is not part of the rendering %r' % text
+        c = impl_context(rec)
+        if c[0] == 0 and c[1] and c[1][0]:
+            # the source context is part of the rendering, line by line, before the message
+            if not subseq_in_order(S(c[1][0]).splitlines() + [S(prefix) + str_of(rec)], text, ''):
+                return 'the source context %r is not part of the rendering %r' % (S(c[1][0]), text)
         fnm = S(rec[2][1]) if rec[2][:1] == [0] else ''
         if fnm and not (set(text) & LB - {'\n'}):
             # every line carries the file name
@@ -528,7 +564,9 @@ def oracle(fn, arg, out):
                     return 'line %r lacks the file name prefix' % l
         return None
     if fn == 2:
-        return None if S(arg[1]) in S(out) else 'str(error) does not contain the message'
+        if out[0] != 0:
+            return 'str(error) raised'
+        return None if S(arg[1]) in S(out[1]) else 'str(error) does not contain the message'
     if fn == 3:
         if not wellformed(arg):
             return None
@@ -1234,3 +1272,20 @@ def extra_checks(ck, tier, rng):
            'info': {'sites_total': len(sites), 'sites_raised_from_in_this_run': len(covered),
                     'sites_not_reached': ['%s:%d %s' % (s[0], s[1], s[3]) for s in sites if s not in covered]}}
     shutil.rmtree(os.path.join(ck.rundir, 'inputs'), ignore_errors=True)
+
+    # 5. information only (no alarm): how often the model's rendering is character-for-character
+    #    the implementation's (the verdict compares renderability only, so that a re-worded
+    #    message is not an alarm)
+    r2 = random.Random(ck.seed)
+    cases = []
+    for i in range(1500):
+        e = gen_err(r2, i)
+        cases.append((1, norm([e, 'ERROR: '])))
+        cases.append((2, norm(e)))
+    try:
+        mo = ck.model.run(cases, ck.rundir)
+        same = sum(1 for (fn, a), m in zip(cases, mo) if m == FUNCS[fn][1](a))
+        info = {'compared': len(cases), 'identical_text': same}
+    except Exception as ex:
+        info = {'error': repr(ex)}
+    yield {'name': 'rendering_text_agreement_info', 'evaluations': len(cases), 'failures': [], 'info': info}
